@@ -76,7 +76,7 @@ Fixpoint chk_wal_steps (t : tabs) (cfg : wcfg) (w : wstate) (ops : list wop)
   end.
 Definition chk_wal (t : tabs) (cfg : wcfg) (ops : list wop) (vis : list (list (Z * Z)))
            (final : list (Z * bytes)) (meta : metafile) (tmp : bool) (rec : rres (list record)) : bool :=
-  let '(ok, w) := chk_wal_steps t cfg (wopen empty_disk) ops vis in
+  let '(ok, w) := chk_wal_steps t cfg (wopen (tcrc t) empty_disk) ops vis in
   let d := wdrop w in
   ok && files_eqb (d_files d) final && meta_eqb (d_meta d) meta && Bool.eqb (d_tmp d) tmp
   && rrecs_eqb (recover (tcrc t) (tdec t) d) rec.
@@ -92,11 +92,11 @@ Fixpoint chk_wal_syn_steps (t : tabs) (cfg : wcfg) (w : wstate) (ops : list wop)
   | _, _ => false
   end.
 Definition chk_wal_syn (t : tabs) (cfg : wcfg) (ops : list wop) (syn : list (list (Z * Z))) : bool :=
-  chk_wal_syn_steps t cfg (wopen empty_disk) ops syn.
+  chk_wal_syn_steps t cfg (wopen (tcrc t) empty_disk) ops syn.
 (** synced lengths the model assigns to the files at the end (shown for diagnostics and
     compared where the harness can observe them) *)
 Definition wal_synced (t : tabs) (cfg : wcfg) (ops : list wop) : list (Z * Z) :=
-  map (fun sf => (fst sf, f_synced (snd sf))) (d_files (w_disk (wrun (tcrc t) (tenc t) cfg (wopen empty_disk) ops))).
+  map (fun sf => (fst sf, f_synced (snd sf))) (d_files (w_disk (wrun (tcrc t) (tenc t) cfg (wopen (tcrc t) empty_disk) ops))).
 Definition chk_wal_synced (t : tabs) (cfg : wcfg) (ops : list wop) (syn : list (Z * Z)) : bool :=
   list_eqb zz_eqb (wal_synced t cfg ops) syn.
 
@@ -207,7 +207,6 @@ Definition kc07_1 (os : list op) : bool := k07_1 (fst (run_store os)).
 Definition chk_import (d : option (snapshot * nat)) (o : cobs) : bool :=
   match import (fun _ => d) [] , o with
   | IErr, CErr => true
-  | IPanic, CPanic => true
   | IOk m, COk _ _ _ _ => chk_copy m o
   | _, _ => false
   end.
@@ -250,8 +249,6 @@ Definition chk_import_bytes (bs : bytes) (d : option (snapshot * nat)) (o : cobs
   dsnap_eqb (dec_snapshot bs) d
   && match import dec_snapshot bs, o with
      | IErr, CErr => true
-     | IErr, CAbort => kc07_4 bs     (* the process was aborted while decoding: not modelled, tolerated only in class K4 *)
-     | IPanic, CPanic => true
      | IOk m, COk _ _ _ _ => chk_copy m o
      | _, _ => false
      end.
